@@ -93,6 +93,10 @@ func getPki() *pki {
 		p.certs["expired"] = makeLeaf(ca, cak, "localhost", []string{"localhost"}, lo, true, false)
 		p.certs["client-good"] = makeLeaf(ca, cak, "client", nil, nil, false, true)
 		p.certs["client-foreign"] = makeLeaf(fca, fcak, "client", nil, nil, false, true)
+		// a certificate from a CA that only LOOKS like the configured one (same subject name, another key): a TLS client offers it,
+		// because the server lists that name among the acceptable issuers, so it is the server's verification that has to refuse it
+		lca, lcak, _ := makeCA("verif test CA")
+		p.certs["client-lookalike"] = makeLeaf(lca, lcak, "client", nil, nil, false, true)
 		thePki = p
 		// The foreign CA is a CA that the HOST trusts (it is the only entry of this process's system trust store) but that the
 		// configuration does not name: only the configured CA may vouch for a peer.
